@@ -87,6 +87,7 @@ partial def parseRefs : List String → Option (List FrameReg.RefObj × List Str
 `c17.thrust <method> start stop t0 h1 h2 …`   → `D ·` thrust time (µs) and `D`
 `c17.accel x0..x5 nb (mu px py pz)… nm (on tag ax ay az)…` → 3 floats `_accel(orb)[3:]` (or `unbound`)
 `c17.name <imp|cont|o2f|local|kepcont> <name>` → `qsw | tnw | identity | value-error`
+`c17.toc <tag> cRef(6) cParent(6) cX(6) ref(6) x(6)` → 6 floats, conversion into a frame attached to an orbit around another centre
 `c17.kcont x0..x5 mu a i v da di dO duration`  → 3 floats, `KeplerianContinuousMan.accel`
 `c17.kepplane c0..c5`                         → inclination, node-direction arguments (Y, X) of `_cartesian_to_keplerian`
 `c17.session reg <name> <tag> <id>[@<pdist>] conv <name> …` → for each conv `tag:id/tagInto:idInto` (or `unknown`): the latest
@@ -152,6 +153,13 @@ def handle : List String → Option String
       | "kepcont", _ => FrameName.keplerianContinuousSel.toString
       | _, _ => "bad-op"
     | none => "bad-op"
+  | "c17.toc" :: tag :: rest => some <|
+    match tagOf tag, takeFloats 30 rest with
+    | some t, some (fs, _) =>
+      let st : Nat → St := fun k => ⟨v3 (fs.getD (6 * k) 0) (fs.getD (6 * k + 1) 0) (fs.getD (6 * k + 2) 0), v3 (fs.getD (6 * k + 3) 0) (fs.getD (6 * k + 4) 0) (fs.getD (6 * k + 5) 0)⟩
+      let r := frameToC Generated.FrameNames.centreLinkedTo t (st 0) (st 1) (st 2) (st 3) (st 4)
+      fsToStr (r.p.toList ++ r.v.toList)
+    | _, _ => "bad-op"
   | "c17.kcont" :: rest => some <|
     match takeFloats 14 rest with
     | some ([a, b, c, d, e, f, mu, sma, i, v, da, di, dO, dur], _) => fsToStr (kepContAccel (v3 a b c) (v3 d e f) mu sma i v da di dO dur).toList
